@@ -319,6 +319,25 @@ theorem wfPats_unalias (bits : Nat) : ∀ (ps : List Pat) (inArg : Bool), wfPats
 end
 
 mutual
+/-- writing a formatter in its short form does not change the nesting depth -/
+theorem depthPat_unalias : ∀ (p : Pat), depthPat (unalias p) = depthPat p
+  | .lit l => by rw [unalias]
+  | .leaf k long spec => by rw [unalias, depthPat_leaf, depthPat_leaf]
+  | .date long none spec => by rw [unalias, depthPat_date_none, depthPat_date_none]
+  | .date long (some fz) spec => by rw [unalias, depthPat_date_some, depthPat_date_some]
+  | .mdc long key dflt spec => by rw [unalias, depthPat_mdc, depthPat_mdc]
+  | .group k long body spec => by
+    rw [unalias, depthPat_group, depthPat_group, depthPats_unalias body]
+theorem depthPats_unalias : ∀ (ps : List Pat), depthPats (unaliasL ps) = depthPats ps
+  | [] => by rw [unaliasL]
+  | p :: ps => by
+    rw [unaliasL, depthPats_cons, depthPats_cons, depthPat_unalias p, depthPats_unalias ps]
+end
+
+theorem WF_unalias (P : Profile) (ps : List Pat) (h : WF P ps) : WF P (unaliasL ps) :=
+  ⟨wfPats_unalias P.wordBits ps false h.1, by rw [depthPats_unalias]; exact h.2⟩
+
+mutual
 theorem stylesPat_noHighlight (env : Env) (r : Record) : ∀ (p : Pat), hasHighlight p = false →
     stylesPat env r p = []
   | .lit l, _ => stylesPat_lit env r l
